@@ -53,7 +53,7 @@ def check(ctx, replay=None):
         for share in ("groups", "conds"):
             jobs.append(conc_job("Conc2_" + share, share, '<<"Assemble", "GetInfo", "Assemble", "Unpack">>', timeout=3000))
     hfile = ctx.path("hist.json")
-    jobs.append(dict(module="ConcGen", cfg='CONSTANTS\n  G = {g1}\n  Share = "distinct"\n  OpsOf <- NoOps\n  Dev = {}\n  MaxHist = %d\n  OutFile = "%s"\nSPECIFICATION Spec\nCHECK_DEADLOCK FALSE\n' % (4 if th else 3, hfile),
+    jobs.append(dict(module="ConcGen", cfg='CONSTANTS\n  G = {g1}\n  Share = "distinct"\n  OpsOf <- NoOps\n  Dev = {}\n  MaxHist = %d\n  OutFile = "%s"\nSPECIFICATION Spec\nCHECK_DEADLOCK FALSE\n' % (5 if th else 3, hfile),
                      name="ConcGen", workers=1, timeout=600))
     for r in ctx.tlc_many(jobs, parallel=4):
         if r["violated"]:
@@ -81,8 +81,8 @@ def check(ctx, replay=None):
     for v in rep["violations"]:
         viol(v, "sequential history replay")
     # 3. ungated concurrent run under the race detector
-    for k in range(4 if th else 2):
-        rc, rep, races, err = run_json(ctx, [race_bin, "-mode", "conc", "-n", "16", "-rounds", "60" if th else "25"], env={"GORACE": "halt_on_error=0 exitcode=0"})
+    for k in range(12 if th else 2):
+        rc, rep, races, err = run_json(ctx, [race_bin, "-mode", "conc", "-n", "16", "-rounds", "120" if th else "25"], env={"GORACE": "halt_on_error=0 exitcode=0"})
         if rep is None:
             raise vlib.Machinery("detrace conc failed: " + err[-1500:])
         ctx.cov["evaluations"] += rep["checked"]
@@ -93,7 +93,7 @@ def check(ctx, replay=None):
             viol(v, "concurrent run")
     # 4. across processes
     digs = set()
-    for k in range(8 if th else 4):
+    for k in range(16 if th else 4):
         rc, rep, races, err = run_json(ctx, [plain if k % 2 else race_bin, "-mode", "digest"])
         if rep is None:
             raise vlib.Machinery("detrace digest failed: " + err[-1500:])
